@@ -104,11 +104,19 @@ func (this *DatasetManager) Get(id uuid.UUID) (*Dataset, error) {
 	return nil, DatasetNotFoundErr
 }
 
+// Upper bound on the partitions of one dataset
+const maxDatasetPartitionCount uint32 = 1 << 16
+
 func validateDatasetMeta(dataset *pb.Dataset) error {
 	if dataset.GetDimension() == 0 {
 		return InvalidDatasetErr
 	}
 	if dataset.GetPartitionCount() == 0 || dataset.GetReplicationFactor() == 0 {
+		return InvalidDatasetErr
+	}
+	if dataset.GetPartitionCount() > maxDatasetPartitionCount {
+		// Partition metadata, placement lists and one raft group per partition
+		// are allocated from this number.
 		return InvalidDatasetErr
 	}
 	switch dataset.GetSpace() {
